@@ -632,8 +632,24 @@ def load_corpus():
 
 
 def run_all(chk, pcases, runs, ucases=()):
-    pimpls = [run_polyak(c) for c in pcases]
-    uimpls = [run_units(c) for c in ucases]
+    import traceback
+
+    def guarded(f, c, what):
+        try:
+            return f(c)
+        except Exception as e:
+            chk.violation("oracle-implementation-raised", f"{what} raised {type(e).__name__}: {e}", {"case": c, "traceback": traceback.format_exc()[-2500:]}, found_input=True)
+            return None
+
+    pimpls = [guarded(run_polyak, c, "polyak_update on generated tensor lists") for c in pcases]
+    uimpls = [guarded(run_units, c, "a sequence of polyak_update calls") for c in ucases]
+    keep_p = [k for k, im in enumerate(pimpls) if im is not None]
+    keep_u = [k for k, im in enumerate(uimpls) if im is not None]
+    pcases[:] = [pcases[k] for k in keep_p]
+    pimpls = [pimpls[k] for k in keep_p]
+    if isinstance(ucases, list):
+        ucases[:] = [ucases[k] for k in keep_u]
+    uimpls = [uimpls[k] for k in keep_u]
     rimpls, derived = [], []
     for cfg in runs:
         try:
@@ -641,7 +657,7 @@ def run_all(chk, pcases, runs, ucases=()):
             rimpls.append(im)
             derived.append(flags_of(cfg, im))
         except Exception as e:
-            rimpls.append({"crash": f"{type(e).__name__}: {e}"})
+            rimpls.append({"crash": f"{type(e).__name__}: {e}", "traceback": traceback.format_exc()[-2500:]})
             derived.append(None)
     exprs = [polyak_expr(c, im) for c, im in zip(pcases, pimpls)]
     ridx = []
@@ -704,7 +720,8 @@ def main():
         hist["bn"] += int(cfg["bn"])
         if d is None:
             if new < 3:
-                chk.violation("oracle-crash", im["crash"], {"run": cfg}, found_input=True)
+                chk.violation("oracle-implementation-raised", "construction / learn() / an instrumented call raised on a legal configuration: " + im["crash"],
+                              {"run": cfg, "traceback": im.get("traceback")}, found_input=True)
                 new += 1
             continue
         flags, gs, actor, structural = d
